@@ -1535,24 +1535,23 @@ Proof.
   intros H. unfold end_fee. destruct (decide (b_proposer b = Some a)); [destruct (0 <? sign256 (b_feesum b))|]; lia.
 Qed.
 
-Lemma hist_step_end S0 s gh s' ups :
-  end_block s = (s', Ok ups) -> run_ok s ->
-  hist_inv S0 (s, POpen, gh) -> S0 + gh_withdrawn gh < supply_bound ->
-  hist_inv S0 (s', PEnded, {| gh_withdrawn := gh_withdrawn gh; gh_slashed := gh_slashed gh;
-                              gh_burned := gh_burned gh + (b_feesum (bctx s) - paid_fees (bctx s)) |}).
+(* the hypotheses of [end_block_supply] follow from the history invariant *)
+Lemma end_block_hyps_from_inv S0 s gh :
+  run_ok s -> hist_inv S0 (s, POpen, gh) -> S0 + gh_withdrawn gh < supply_bound ->
+  bal_range (work s) /\ 0 <= b_feesum (bctx s) < two256 /\ frozen_synced s /\
+  (forall a, bal_of (work s) a + end_fee (bctx s) a +
+             refunds_to (sorted_items (frozen (base_of s))) (b_height (bctx s)) a < two256).
 Proof.
-  intros He (Hu & Htot & Hpw & Hpar) Hinv Hbound.
+  intros (Hu & Htot & Hpw & Hpar) Hinv Hbound.
   destruct (hist_inv_bal S0 s POpen gh (gh_withdrawn gh) Hinv Hpw ltac:(lia)) as (Htb & Hpend & Hsup & Hbal).
   destruct Hinv as (Heq & Hr & Hw & Hsl & Hbn & Hfs & Hfz).
   destruct (powers_ok_parts _ Hpw) as (Hbp & Hfp & Hfr & _).
   destruct supply_bound_lt as (Hb255 & _). pose proof two255_two256 as H25.
   cbn [pending] in *. specialize (Hfs eq_refl).
-  assert (Hsync : frozen_synced s).
-  { intros k s0 Hk _. pose proof (lookup_weaken _ _ _ _ Hk Hfz) as Hk'.
-    split; [apply (Hfr k s0 Hk')|]. exists s0. auto. }
-  assert (Hroom : forall a, bal_of (work s) a + end_fee (bctx s) a +
-             refunds_to (sorted_items (frozen (base_of s))) (b_height (bctx s)) a < two256).
-  { intros a.
+  split; [exact Hr|]. split; [exact Hfs|]. split.
+  - intros k s0 Hk _. pose proof (lookup_weaken _ _ _ _ Hk Hfz) as Hk'.
+    split; [apply (Hfr k s0 Hk')|]. exists s0. auto.
+  - intros a.
     pose proof (end_fee_le (bctx s) a (proj1 Hfs)) as Hef.
     assert (Hrf : refunds_to (sorted_items (frozen (base_of s))) (b_height (bctx s)) a
                   <= amountPerPower * frozen_power (work s)).
@@ -1564,7 +1563,18 @@ Proof.
         intros k x Hk. apply (Hfr k x Hk). }
     pose proof (bal_le_total _ a Hr) as Hbt.
     assert (Happ : 0 < amountPerPower) by (unfold amountPerPower; lia).
-    unfold supply in Hsup. nia. }
+    unfold supply in Hsup. nia.
+Qed.
+
+Lemma hist_step_end S0 s gh s' ups :
+  end_block s = (s', Ok ups) -> run_ok s ->
+  hist_inv S0 (s, POpen, gh) -> S0 + gh_withdrawn gh < supply_bound ->
+  hist_inv S0 (s', PEnded, {| gh_withdrawn := gh_withdrawn gh; gh_slashed := gh_slashed gh;
+                              gh_burned := gh_burned gh + (b_feesum (bctx s) - paid_fees (bctx s)) |}).
+Proof.
+  intros He Hok Hinv Hbound.
+  destruct (end_block_hyps_from_inv _ _ _ Hok Hinv Hbound) as (Hr & Hfs & Hsync & Hroom).
+  destruct Hinv as (Heq & _ & Hw & Hsl & Hbn & _ & _). cbn [pending] in Heq.
   pose proof (end_block_supply _ _ _ He Hr Hfs Hsync Hroom) as Hs'.
   destruct (end_block_balances _ _ _ He Hr Hfs) as (Hr' & _).
   pose proof (paid_le_feesum (bctx s) (proj1 Hfs)) as Hpaid.
@@ -1775,5 +1785,118 @@ Proof.
       (split; [zclosed|split; [|reflexivity]]); intros req Hty Hp; try discriminate Hty.
     injection Hp as <-. zclosed. }
   split; [apply bal_range_decide; vm_compute; reflexivity|].
+  split; vm_compute; reflexivity.
+Qed.
+
+(* ================================================================== F4 / C02 on the EVM path *)
+Definition evm_write (l : ledgers) (x : addr * Z * Z) : ledgers :=
+  let '(a, bal, nonce) := x in
+  let old := default acct0 (accts l !! a) in
+  set_acct l a {| a_nonce := nonce; a_bal := bal; a_code := a_code old; a_name := a_name old; a_doc := a_doc old |}.
+
+Lemma evm_fold_total (xs : list (addr * Z * Z)) : forall l,
+  NoDup ((fun x : addr * Z * Z => x.1.1) <$> xs) ->
+  total_balance (foldl evm_write l xs) = total_balance l + sumZ_with (fun x : addr * Z * Z => x.1.2 - bal_of l x.1.1) xs /\
+  dels (foldl evm_write l xs) = dels l /\ frozen (foldl evm_write l xs) = frozen l /\
+  (bal_range l -> (forall x, x ∈ xs -> 0 <= x.1.2 < two256) -> bal_range (foldl evm_write l xs)).
+Proof.
+  induction xs as [|[[a b] n] xs IH]; intros l Hnd; cbn [foldl].
+  - split; [simpl; lia|]. auto.
+  - rewrite fmap_cons in Hnd. apply NoDup_cons in Hnd as (Hnotin & Hnd). cbn [fst snd] in Hnotin.
+    destruct (IH (evm_write l (a, b, n)) Hnd) as (Ht & Hd & Hf & Hr).
+    split; [|split; [rewrite Hd; reflexivity|split; [rewrite Hf; reflexivity|]]].
+    + rewrite Ht.
+      assert (Hw : total_balance (evm_write l (a, b, n)) = total_balance l - bal_of l a + b).
+      { unfold evm_write. rewrite total_balance_set_acct. reflexivity. }
+      rewrite Hw. change (sumZ_with ?f ((a, b, n) :: xs)) with (f (a, b, n) + sumZ_with f xs). cbn [fst snd].
+      assert (Hext : sumZ_with (fun x : addr * Z * Z => x.1.2 - bal_of (evm_write l (a, b, n)) x.1.1) xs =
+                     sumZ_with (fun x : addr * Z * Z => x.1.2 - bal_of l x.1.1) xs).
+      { apply sumZ_with_ext. intros x Hx. unfold evm_write. rewrite bal_of_set_acct.
+        destruct (decide (a = x.1.1)) as [->|Hne]; [|reflexivity].
+        exfalso. apply Hnotin. apply elem_of_list_fmap. exists x. auto. }
+      rewrite Hext. lia.
+    + intros Hrl Hxs. apply Hr.
+      * unfold evm_write. apply bal_range_set_acct; [exact Hrl|]. cbn [a_bal].
+        apply (Hxs (a, b, n)). apply elem_of_cons. auto.
+      * intros x Hx. apply Hxs. apply elem_of_cons. auto.
+Qed.
+
+(* under the oracle hypothesis an EVM execution takes exactly gas used x price (+ what the contract
+   semantics burnt) out of the supply; with [deliver_evm_gas] that amount is what enters the fee sum *)
+Theorem deliver_evm_supply s t s' g e burn :
+  deliver s t = (s', Ok g) -> ~ native s t -> t_evm t = Some e ->
+  evm_effect_fee_ok (work s) t (g_gasPrice (gparams s)) e burn -> bal_range (work s) ->
+  supply (work s') = supply (work s) - e_gas e * g_gasPrice (gparams s) - burn /\ bal_range (work s').
+Proof.
+  intros Hd Hn Hevm (Hnd & _ & Hrng & _ & Hsum) Hr.
+  apply deliver_ok_inv in Hd as (sender & lim' & _ & _ & _ & _ & Hd). cbv zeta in Hd.
+  rewrite receiver_of_eq in Hd. unfold native in Hn.
+  destruct (evm_path_of t (acct_of (work s) (t_to t))); [|contradiction Hn; reflexivity].
+  destruct Hd as (l' & He & ->). cbn [work with_bctx with_work] in *.
+  change (work (with_lim (pre_state s t) lim')) with ((find_or_new (work s) (t_to t)).1) in He.
+  unfold evm_execute in He. rewrite Hevm in He. destruct (e_ok e); [|discriminate]. cbn [negb] in He.
+  set (l0 := (find_or_new (work s) (t_to t)).1) in *.
+  change (foldl _ l0 (e_accts e)) with (foldl evm_write l0 (e_accts e)) in He.
+  destruct (evm_fold_total (e_accts e) l0 Hnd) as (Ht & Hdl & Hfz & Hrr).
+  set (l1 := foldl evm_write l0 (e_accts e)) in *.
+  assert (Hr1 : bal_range l1) by (apply Hrr; [apply bal_range_find_or_new; exact Hr|exact Hrng]).
+  assert (Hs1 : supply l1 = supply (work s) - e_gas e * g_gasPrice (gparams s) - burn).
+  { unfold supply. rewrite Ht, (bonded_power_same _ _ Hdl), (frozen_power_same _ _ Hfz).
+    assert (Hext : sumZ_with (fun x : addr * Z * Z => x.1.2 - bal_of l0 x.1.1) (e_accts e) =
+                   sumZ_with (fun x : addr * Z * Z => x.1.2 - bal_of (work s) x.1.1) (e_accts e)).
+    { apply sumZ_with_ext. intros x _. unfold l0. rewrite bal_of_find_or_new. reflexivity. }
+    rewrite Hext, Hsum. fold (supply l0). unfold l0.
+    pose proof (supply_find_or_new (work s) (t_to t)) as Hs0. unfold supply in Hs0. lia. }
+  destruct (e_created e) as [c|]; injection He as <-.
+  - rewrite supply_set_acct. cbn [a_bal]. split; [unfold bal_of, acct_of; lia|].
+    apply bal_range_set_acct; [exact Hr1|]. cbn [a_bal]. apply (bal_range_bal_of _ c Hr1).
+  - auto.
+Qed.
+Print Assumptions deliver_evm_supply.
+
+(* ================================================================== what fails without the bounds *)
+(* INTENDED: [deliver_native_supply] without [stake_amount_ok].  AmountToPower keeps the low 64 bits
+   of amount / 10^18: a stake of (2^64 + 7) * 10^18 base units buys 7 units of power and the
+   remaining 2^64 * 10^18 base units are destroyed. *)
+Theorem staking_truncation_refuted :
+  exists s t s' g,
+    deliver s t = (s', Ok g) /\ native s t /\ tx_wf t /\ payload_wf t /\ bal_range (work s) /\
+    params_ok (gparams s) /\ hashes_unique (work s) /\ totals_ok (work s) /\
+    (forall a, room_for (work s) t a) /\
+    supply (work s') = supply (work s) - fee_of t + withdrawn_of t - two64 * amountPerPower.
+Proof.
+  set (g := {| gen_params := demo_params;
+               gen_holders := [(5%N, (2 ^ 64 + 1000) * amountPerPower); (11%N, 1000 * amountPerPower)];
+               gen_validators := [(11%N, 100)] |}).
+  set (s := (begin_block (init_chain g) (demo_hdr 1 (Some 11%N))).1).
+  set (t := demo_tx TRX_STAKING 5%N 11%N ((2 ^ 64 + 7) * amountPerPower) 4000 0 PNone 200%N).
+  assert (Hr : bal_range (work s)) by (apply bal_range_decide; vm_compute; reflexivity).
+  exists s, t. eexists. eexists. split; [vm_compute; reflexivity|]. split; [vm_compute; reflexivity|].
+  split; [zclosed|]. split; [intros req Hty; discriminate Hty|]. split; [exact Hr|]. split; [zclosed|].
+  assert (Hok : run_ok s) by (apply run_okb_sound; vm_compute; reflexivity).
+  destruct Hok as (Hu & Ht & _). split; [exact Hu|]. split; [exact Ht|].
+  split.
+  - intros a. right. change (tx_in t a) with 0. pose proof (bal_range_bal_of _ a Hr). lia.
+  - vm_compute. reflexivity.
+Qed.
+
+(* ---- per-operation examples, on states of the run above *)
+(* S1: the unstaking of block 2 *)
+Example deliver_native_supply_example :
+  let s := srun (init_chain hx_genesis) (take 7 hx_ops) in
+  let t := demo_tx TRX_UNSTAKING 3%N 11%N 0 4000 1 (PUnstake 102%N true) 104%N in
+  exists s', deliver s t = (s', Ok 4000) /\ native s t /\ tx_wf t /\ payload_wf t /\ bal_range (work s) /\
+    room_for (work s) t (t_to t) /\ room_for (work s) t (t_from t) /\ stake_amount_ok t /\ unstake_ok (work s) t /\
+    supply (work s') = supply (work s) - 40000 /\ frozen_power (work s') = frozen_power (work s) + 20.
+Proof.
+  cbv zeta. set (s := srun (init_chain hx_genesis) (take 7 hx_ops)).
+  assert (Hr : bal_range (work s)) by (apply bal_range_decide; vm_compute; reflexivity).
+  assert (Hok : run_ok s) by (apply run_okb_sound; vm_compute; reflexivity).
+  destruct Hok as (Hu & Ht & _).
+  eexists. split; [vm_compute; reflexivity|]. split; [vm_compute; reflexivity|]. split; [zclosed|].
+  split; [intros req Hty; discriminate Hty|]. split; [exact Hr|].
+  split; [right; pose proof (bal_range_bal_of _ 11%N Hr) as H; exact (proj2 (Z.add_0_r _ |> fun e => eq_ind_r (fun z => z < two256) (proj2 H) e) |> fun x => x)|].
+  split; [right; pose proof (bal_range_bal_of _ 3%N Hr) as H; exact (eq_ind_r (fun z => z < two256) (proj2 H) (Z.add_0_r _))|].
+  split; [intros Hty; discriminate Hty|]. split; [intros _; auto|].
   split; vm_compute; reflexivity.
 Qed.
